@@ -156,18 +156,32 @@ func runStr(cs []int, w int) (sc StrCase, pan string, err error) {
 	// ui.Text.TrimWcwidth: one segment, and every split into two differently styled segments
 	sc.TTrim = append(sc.TTrim, plainOf(ui.T(s).TrimWcwidth(w)))
 	rs := []rune(s)
-	for k := 1; k < len(rs); k++ {
+	step := 1
+	if len(rs) > 6 {
+		step = len(rs) / 4 // longer (random) strings: a few segmentations
+	}
+	for k := 1; k < len(rs); k += step {
 		t := ui.Concat(ui.T(string(rs[:k])), ui.T(string(rs[k:]), ui.Bold))
 		sc.TTrim = append(sc.TTrim, plainOf(t.TrimWcwidth(w)))
 	}
 	return sc, "", nil
 }
 
-func strKey(why string) string {
-	if why == "text-trimwcwidth" {
-		return "text-trimwcwidth:not-longest-prefix"
+// strKey labels a rejected string case; exp is the prescribed trim result.
+func strKey(why string, sc StrCase, exp []int) string {
+	if why != "text-trimwcwidth" {
+		return "wcwidth:" + why
 	}
-	return "wcwidth:" + why
+	for _, got := range sc.TTrim {
+		if eqInts(got, exp) {
+			continue
+		}
+		if len(got) < len(exp) && eqInts(got, exp[:len(got)]) && sumW(exp[len(got):]) == 0 {
+			return "text-trimwcwidth:drops-zero-width-tail"
+		}
+		break
+	}
+	return "text-trimwcwidth:not-longest-prefix"
 }
 
 func strings_(c *lib.Ctx) error {
@@ -225,7 +239,7 @@ func strings_(c *lib.Ctx) error {
 			}
 		}
 		if why != "" {
-			reject(c, strKey(why), fmt.Sprintf("(%q, %d): real code %s; specification prescribes trim=%v force=%v lines=%v", str, em.C.W, js(sc), em.Trim, em.Force, em.Lines), sc)
+			reject(c, strKey(why, sc, em.Trim), fmt.Sprintf("(%q, %d): real code %s; specification prescribes trim=%v force=%v lines=%v", str, em.C.W, js(sc), em.Trim, em.Force, em.Lines), sc)
 		}
 		if n%3000 == 1 {
 			c.Sample(em)
@@ -253,6 +267,9 @@ var gridSizes = func() []Size {
 	}
 	return out
 }()
+
+// quick tier: the corner and middle sizes of the grid
+var quickSizes = []Size{{2, 1}, {2, 2}, {2, 4}, {3, 1}, {3, 3}, {4, 2}, {5, 1}, {5, 4}, {6, 2}, {8, 1}, {8, 3}, {8, 4}}
 
 // renderAndCollect renders configurations; panics are rejected here, the rest goes to the judge.
 func renderAndCollect(c *lib.Ctx, cfgs []Cfg, sizesOf func(i int) []Size, seed int64) ([]WidgetCase, error) {
@@ -291,22 +308,12 @@ func judgeWidgets(c *lib.Ctx, name string, wcs []WidgetCase, par int) error {
 				why = s
 			}
 		}
-		reject(c, wc.Cfg.key()+":"+why, fmt.Sprintf("%s: %s", js(wc.Cfg), at), wc)
+		reject(c, wc.Cfg.key()+":"+why+wc.Cfg.feature(), fmt.Sprintf("%s: %s", js(wc.Cfg), at), wc)
 	}
 	return nil
 }
 
-func lineWidths(r Render) []int {
-	var out []int
-	for _, l := range r.Lines {
-		w := 0
-		for _, x := range l {
-			w += x
-		}
-		out = append(out, w)
-	}
-	return out
-}
+func lineWidths(r Render) []int { return r.Lines }
 
 func widgets(c *lib.Ctx) error {
 	dir := c.SpecDir("Width")
@@ -335,10 +342,24 @@ func widgets(c *lib.Ctx) error {
 		kinds[cf.key()]++
 		c.Distinct(cf)
 	}
-	if int64(len(cfgs)) != r.Distinct {
+	if int64(len(cfgs)) != r.Distinct { // (probes are appended below)
 		return lib.Infra("TLC reported %d widget configurations, received %d", r.Distinct, len(cfgs))
 	}
-	wcs, err := renderAndCollect(c, cfgs, func(int) []Size { return gridSizes }, c.Seed*1000003)
+	sizes := gridSizes
+	if c.Quick() {
+		sizes = quickSizes
+	}
+	pr := probes()
+	for _, p := range pr {
+		cfgs = append(cfgs, p.cfg)
+	}
+	nEnum := len(cfgs) - len(pr)
+	wcs, err := renderAndCollect(c, cfgs, func(i int) []Size {
+		if i >= nEnum {
+			return pr[i-nEnum].sizes
+		}
+		return sizes
+	}, c.Seed*1000003)
 	if err != nil {
 		return err
 	}
@@ -349,8 +370,8 @@ func widgets(c *lib.Ctx) error {
 		return err
 	}
 	c.Set("widget_configurations", kinds)
-	c.Set("renders_per_configuration", len(gridSizes))
-	c.Logf("widgets: %d configurations x %d sizes rendered and judged %v", len(cfgs), len(gridSizes), kinds)
+	c.Set("renders_per_configuration", len(sizes))
+	c.Logf("widgets: %d configurations x %d sizes (+ %d directed probes) rendered and judged %v", nEnum, len(sizes), len(pr), kinds)
 	return nil
 }
 
@@ -417,13 +438,19 @@ func judgeStrs(c *lib.Ctx, name string, scs []StrCase, par int) error {
 	for _, b := range bad {
 		sc := scs[b.Index]
 		why := "trim"
+		var exp []int
 		if len(b.Info) >= 2 {
 			if s, ok := b.Info[1].(string); ok {
 				why = s
 			}
 		}
+		if len(b.Info) >= 3 {
+			if s, ok := b.Info[2].(string); ok {
+				json.Unmarshal([]byte(s), &exp)
+			}
+		}
 		str, _ := stringOf(sc.S)
-		reject(c, strKey(why), fmt.Sprintf("(%q, %d): real code %s", str, sc.W, js(sc)), sc)
+		reject(c, strKey(why, sc, exp), fmt.Sprintf("(%q, %d): real code %s", str, sc.W, js(sc)), sc)
 	}
 	return nil
 }
